@@ -13,14 +13,14 @@
 use crate::{
     error::{WriterError, WriterResult},
     model::{
-        TryFromNode,
+        Namespace, TryFromNode,
         doc::RustDocument,
         node::RustNode,
         soap::{binding::SoapBinding, message::SoapMessage, port::SoapPort, service::SoapService},
     },
 };
 use roxmltree::Node;
-use std::{collections::HashMap, fmt::Display, io, sync::atomic::AtomicBool};
+use std::{collections::HashMap, fmt::Display, io, rc::Rc, sync::atomic::AtomicBool};
 
 pub const WELL_KNOWN_NAMESPACES: &[&str] = &[
     "http://www.w3.org/XML/1998/namespace",
@@ -132,6 +132,17 @@ impl XmlReader {
     }
 
     fn read_xml_internal(file: &FileContent, file_name: &str, files: &Files) -> WriterResult<RustDocument> {
+        Self::read_xml_with_known_namespaces(file, file_name, files, &[])
+    }
+
+    /// `known_namespaces`: the namespaces of the importing document, so that one namespace gets one
+    /// abbreviation and module in the whole output and two namespaces never share one
+    fn read_xml_with_known_namespaces(
+        file: &FileContent,
+        file_name: &str,
+        files: &Files,
+        known_namespaces: &[Rc<Namespace>],
+    ) -> WriterResult<RustDocument> {
         if file.processed.load(std::sync::atomic::Ordering::SeqCst) {
             let rust_doc = RustDocument::empty();
             return Ok(rust_doc);
@@ -140,7 +151,7 @@ impl XmlReader {
         let xml = &file.xml;
         let doc = roxmltree::Document::parse(xml)
             .map_err(|e| WriterError::new(format!("Unable to parse file {file_name}: {e}")))?;
-        let mut rust_doc = RustDocument::init(&doc);
+        let mut rust_doc = RustDocument::init_with_known_namespaces(&doc, known_namespaces);
 
         // mark the file before following its imports, so that import cycles terminate
         file.processed.store(true, std::sync::atomic::Ordering::SeqCst);
@@ -222,7 +233,8 @@ impl XmlReader {
     fn read_xsd<'n>(node: Node<'n, 'n>, files: &Files, doc: &mut RustDocument) -> WriterResult<()> {
         for child in node.children() {
             if child.tag_name().name() == "import" {
-                doc.extend(Self::process_import(child, files)?);
+                let imported = Self::process_import(child, files, &doc.namespaces)?;
+                doc.extend(imported);
                 continue;
             }
 
@@ -234,7 +246,7 @@ impl XmlReader {
         Ok(())
     }
 
-    fn process_import(node: Node, files: &Files) -> WriterResult<RustDocument> {
+    fn process_import(node: Node, files: &Files, known_namespaces: &[Rc<Namespace>]) -> WriterResult<RustDocument> {
         let namespace = node.attribute("namespace").ok_or(WriterError::NamespaceMissing)?;
 
         if WELL_KNOWN_NAMESPACES.contains(&namespace) {
@@ -254,7 +266,7 @@ impl XmlReader {
             return Ok(RustDocument::empty());
         }
 
-        let rust_doc = Self::read_xml_internal(file, schema_location, files)?;
+        let rust_doc = Self::read_xml_with_known_namespaces(file, schema_location, files, known_namespaces)?;
         Ok(rust_doc)
     }
 }
